@@ -7,7 +7,7 @@ def run(chk):
     quick = chk.tier == "quick"
     chk.rule = ("(X) simultaneous_dial_tie_breaking on all 4 origin pairs x ordered id pairs differing in the first / last byte (256x256 sample of ranks, exhaustive over the 12 decision classes); "
                 "(T) every maximal schedule of the mutual-dial transition system (enumerated by the extracted model, both id orders) replayed on two real ActivePeers sets with two real connections; "
-                "(D) whole networks dialing each other simultaneously over the fabric under seeded delay/jitter; distinct = case text; non-trivial = all")
+                "(D) whole networks dialing each other simultaneously over the fabric under seeded delay/jitter, with both sides' recorded active-peer histories replayed on ActivePeers.v (pre-state of every operation, event log, final listing); distinct = case text; non-trivial = all")
     if not chk.prepare():
         return
     # (X) tie-break
